@@ -231,6 +231,11 @@ def gen_scenario(rng: random.Random, feat: dict | None = None) -> dict:
                                "mode": rng.choice(["now", "now", "clean", "now-now"])})
         scn["ops"].sort(key=lambda o: o["tick"])
         scn["baseline"] = True
+    if feat.get("crash"):
+        for _ in range(rng.choice([1, 1, 2])):
+            scn["ops"].append({"tick": rng.randint(0, 10), "cmd": "crash", "stmts": rng.choice([0, 0, 1, 2, 3, 5, 8, 13])})
+        scn["ops"].sort(key=lambda o: o["tick"])
+        scn["baseline"] = True
     if feat.get("stop"):
         r = rng.random()
         tick = rng.randint(0, 8)
